@@ -22,7 +22,13 @@ def writers():
                          field(5, "default", M(T("string"), ST("WIn", True))), field(6, "optional", ST("WIn", True)),
                          field(7, "default", ST("WIn", False)), field(8, "default", L(L(T("i64")))),
                          field(9, "default", M(T("i16"), L(T("string")))), field(10, "optional", M(ST("WIn", True), T("i8"))),
-                         field(11, "default", L(ST("WIn", False)))])
+                         field(11, "default", L(ST("WIn", False))), field(12, "default", M(T("string"), ST("WIn", False))),
+                         field(13, "default", M(T("i32"), T("enum"))), field(14, "default", M(T("enum"), T("enum"))),
+                         field(15, "default", L(T("enum"))), field(16, "default", SET(ST("WSetOnly", True))),
+                         field(17, "optional", M(T("string"), SET(ST("WSetOnly2", False))))])
+    # struct types reachable only as set elements
+    d["WSetOnly"] = struct([field(1, "default", T("i32")), field(2, "optional", T("string", True))])
+    d["WSetOnly2"] = struct([field(1, "default", T("i64")), field(2, "default", T("string"))])
     # every field an optional container: with all others nil, a field is the only (hence last) thing in the message
     d["WOpt"] = struct([field(1, "optional", L(L(T("i64")))), field(2, "optional", M(T("i16"), L(T("string")))),
                         field(3, "optional", SET(L(T("binary")))), field(4, "optional", L(M(T("i32"), T("i32")))),
